@@ -486,7 +486,7 @@ package banderwagon
 //@ macro QZc(H, S, k) = H[obj(S)][c3(off(S), k, 2)]
 
 //@ func batchProjToAffine$1
-//@ props C13 C02
+//@ props C13 C02 C04
 //@ prelude field bnorm
 //@ option chunked
 //@ let HP = heapFp()
@@ -515,7 +515,7 @@ package banderwagon
 // Entry k of the fresh result is the affine point (X/Z, Y/Z) of point k, and (0, 0) for a point with Z == 0; no pre-existing
 // cell is written.
 //@ func batchProjToAffine
-//@ props C13 C02
+//@ props C13 C02 C04
 //@ prelude field fieldlemmas bnorm
 //@ let HP = heapFp()
 //@ let HI = heapInt()
@@ -548,7 +548,7 @@ package banderwagon
 // Element.MultiExp: copies the projective coordinates, converts them to affine in one batch (proved above) and calls the
 // bucket-method MSM (assumed contract on affine points); the affine sum equals the projective one (bridge lemma).
 //@ func Element.MultiExp
-//@ props C02
+//@ props C02 C04 C13
 //@ prelude field fieldlemmas group bytes bytesint bytesbridge curve frint bary ipa ipaspec bnorm msmaffine
 //@ let HP = heapFp()
 //@ requires validVec(points) && config.ScalarsMont
